@@ -358,6 +358,13 @@ def gen_spec(rng):
         elif it[0] in ("packed-switch-payload", "sparse-switch-payload"):
             it[2] = rel
     code, offs = asm(items)
+    # now and then a payload reference that misses the payload by a code unit or two (not an
+    # instruction offset, or the wrong instruction): get_ins_off must then find nothing / that instruction
+    for k, (it, at) in enumerate(zip(items, offs.item_offsets)):
+        if isinstance(it, list) and it[0] in ("packed-switch", "sparse-switch", "fill-array-data") \
+                and isinstance(it[2], str) and rng.random() < 0.08:
+            items[k] = [it[0], it[1], offs[it[2]] - at + rng.choice((1, -1, 2, 3))]
+    code, offs = asm(items)
     # try ranges over the code part
     bounds = sorted({at for it, at in zip(items[:ncode], offs.item_offsets[:ncode]) if not isinstance(it, str)})
     end_code = offs.item_offsets[ncode] if ncode < len(items) else offs.size_units
@@ -501,6 +508,8 @@ class Run:
                 self.dist["shipped_methods"] += 1
 
     def flush(self, drv):
+        if not self.reqs:
+            return 0
         model = drv.ask(self.reqs)
         model = [post_model(r, self.prop, d) for r, d in zip(model, self.post)]
         self.ck.compare("cfg-" + self.cmd, [r if len(r) < 4000 else r[:4000] + "…" for r in self.reqs], self.real, model)
@@ -539,6 +548,7 @@ def run(ck: Check, prop: str):
     # corpus first
     for name, c in corpus_cases(prop):
         replay_case(r, c["case"] if "case" in c else c)
+    n = r.flush(drv)
     ngen = 2500 if ck.quick else 60000
     per = 50
     for _ in range(ngen // per):
@@ -551,9 +561,12 @@ def run(ck: Check, prop: str):
             except ValueError:
                 continue
         r.run_specs(specs, ck.rng.random() < 0.5)
+        if len(r.reqs) >= 20000:
+            n += r.flush(drv)
     for name, which, path in shipped_dex_files(ck.quick):
         r.run_file(name, which, path)
-    n = r.flush(drv)
+        n += r.flush(drv)
+    n += r.flush(drv)
     ck.cover(evaluations=n, distinct=r.distinct, samples=r.samples, dist=r.dist)
     if prop == "C12":
         ck.partial.append("the completeness half at full strength (exc_complete_full) is false of the code: "
